@@ -652,7 +652,8 @@ impl HasName for Entry {
     fn storage_type(&self) -> StorageType {
         match StorageType::from_u8((self.stor_len_nibs & 0xf0) >> 4) {
             Some(t) => t,
-            _ => panic!("encountered unknown storage type")
+            // unknown storage type (damaged directory): matches no file or directory search
+            _ => StorageType::Inactive
         }
     }
 }
@@ -667,7 +668,8 @@ impl HasName for VolDirHeader {
     fn storage_type(&self) -> StorageType {
         match StorageType::from_u8((self.stor_len_nibs & 0xf0) >> 4) {
             Some(t) => t,
-            _ => panic!("encountered unknown storage type")
+            // unknown storage type (damaged directory): matches no file or directory search
+            _ => StorageType::Inactive
         }
     }
 }
@@ -682,7 +684,8 @@ impl HasName for SubDirHeader {
     fn storage_type(&self) -> StorageType {
         match StorageType::from_u8((self.stor_len_nibs & 0xf0) >> 4) {
             Some(t) => t,
-            _ => panic!("encountered unknown storage type")
+            // unknown storage type (damaged directory): matches no file or directory search
+            _ => StorageType::Inactive
         }
     }
 }
